@@ -12,9 +12,9 @@ import gen_sha  # noqa: E402
 PROPERTIES = ["C17"]
 MANIFEST = {
     "C17": {
-        "technique": "Lean 4 proof (model of Sha256.cpp/Sha256.hpp over constants and macro bodies re-translated from the current sources on every run, proved equal to FIPS 180-4 / RFC 2104 written independently) + differential correspondence real code vs model vs Python hashlib/hmac",
-        "text": "Kernel-checked theorems for ALL messages, chunkings and keys (no size bound other than the standard's own 2^64-bit limit): the generated K/H0 are the constants of the standard (defined as cube/square roots of the first primes, roots proved exact), the generated macro bodies S0 S1 s0 s1 Ch Maj are the functions of FIPS 4.1.2, one Transform call (rolling 16-word window, rotating register index, macro R) equals the FIPS compression function, update/finalize over any list of chunks equals the FIPS digest of the concatenation (one- and two-block padding cases), the hasher is reusable after construction/finalize/reset (no length hypothesis for the reusability itself; digests are stated below the standard's 2^61-byte limit), Sha256::hmac equals RFC 2104 for keys shorter than, equal to and longer than the block size.  Tie to the current sources on every run: tables, header constants and macro bodies are re-translated (g++ -E -dD + expression translator) and all theorems are re-checked over them; the hand-written control flow of the model is executed against the real code (ASan/UBSan) on identical op lines - all lengths 0..300 x all 2-way splits, lengths 0..70 x all 3-way splits, sampled 3-way splits with interleaved reset/finalize, lengths to 70000, keys 0..200 (quick tier: seed-chosen slices) - and every digest is also compared with Python hashlib/hmac; two further streams pass empty inputs as (nullptr, 0) and preset `count` (white box) to multiples of 64 up to 2^64-64 so that the upper bytes of the 64-bit length field are exercised.",
-        "note": "Trusted: Lean kernel + the three standard axioms; the translator tools/gen_sha.py (small C-expression translator for the macro bodies; it refuses what it cannot translate faithfully, e.g. unsequenced side effects or _SHA256_UNROLL2; its output is exercised by the correspondence run); the hand translation of the control flow of update/finalize/Transform/WriteByteBlock/hash/hmac into Model.lean (validated by the correspondence run, not proved); my transcription of FIPS 180-4 / RFC 2104 in Spec.lean (kernel-evaluated on the NIST 'abc', empty, two-block vectors and RFC 4231 cases 1 (short key) and 6 (131-byte key, hash-key-first branch), and compared with Python hashlib/hmac through the driver on every run: tests).  Memory abstraction: C arrays are Lean lists; every write goes through a checked `wr` that destroys the array on an out-of-range index, every read (state, buffer, hashKey, and T/W/K/data inside the translated macros) is recorded in a ghost flag `ok` (index inside the array) that the model carries and the driver reports as FAULT; the theorems hold for all inputs and include ok = true, so out-of-range reads and writes are excluded in the model (the harness additionally runs the real code under ASan with the hasher in an exactly sized heap block); Transform's uninitialised W[16] is proved irrelevant (transform_ignores_uninitialised_W), a fresh hasher's indeterminate buffer is covered by `Reusable` (arbitrary buffer content).  S0 S1 s0 s1 are proved by rfl when written like the standard and otherwise bit by bit (32 positions), Ch/Maj bit by bit: equivalent rewrites of the macros (rotate left, helper macros, operand order) keep the proofs, a wrong constant breaks them.  Not modelled: the _SHA256_UNROLL2 variant (translator refuses it).  Hypothesis of the theorems: fewer than 2^61 bytes per digest (= the 2^64-bit limit of FIPS 180-4; beyond it count<<3 wraps).  No theorem is partial; there is no OPEN statement.",
+        "technique": "Lean 4 proof (model of Sha256.cpp/Sha256.hpp whose constants, macro bodies AND function bodies - Transform in all three build configurations, WriteByteBlock, update, finalize - are re-translated from the current sources on every run, proved equal to FIPS 180-4 / RFC 2104 written independently) + differential correspondence real code (built in up to three configurations) vs model vs Python hashlib/hmac",
+        "text": "Kernel-checked theorems for ALL messages, chunkings and keys: the generated K/H0 are the constants of the standard (defined as cube/square roots of the first primes, roots proved exact), the generated macro bodies S0 S1 s0 s1 Ch Maj are the functions of FIPS 4.1.2, the GENERATED body of Transform (copy loops, j/i loops, macro R over the rolling 16-word window and the rotating register index) equals the FIPS compression function for every chaining value, block and initial content of its uninitialised locals, and so do the generated Transform bodies of the two other build configurations of the sources (-D_SHA256_UNROLL: RX_8 of eight R(i+k); -D_SHA256_UNROLL2: eight scalar registers, nine-parameter macro R with permuted arguments) - transform_unroll_eq, transform_unroll2_eq; the bodies of WriteByteBlock, update and finalize translated from the sources (typed statement translator) are proved equal to the model functions for every object state and input (generated_bodies_are_the_model), and update/finalize over any list of chunks equals the FIPS digest of the concatenation (streaming, streaming_generated; one- and two-block padding cases); beyond the standard's 2^61-byte limit and below 2^64 bytes the code is proved to compute the FIPS formula with the low 64 bits of the bit length (streaming_up_to_2_64, length_field_wraps); the hasher is reusable after construction/finalize/reset, a hasher copied mid-stream and its original continue independently (copy_midstream), the byte<->word conversions are big-endian for every buffer content without alignment/endianness assumptions (byte_word_assembly_is_big_endian), Sha256::hmac equals RFC 2104 for keys shorter than, equal to and longer than the block size.  Tie to the current sources on every run: tables, header constants, macro bodies and the function bodies are re-translated (g++ -E -dD, g++ -E -dD -fdirectives-only, C parser + emitters) and all theorems are re-checked over them; the model driver EXECUTES the translated update/finalize/Transform against the real code (ASan/UBSan) on identical op lines - all lengths 0..300 x all 2-way splits, lengths 0..70 x all 3-way splits, sampled 3-way splits with interleaved reset/finalize, copies mid-stream (copy constructor/assignment), lengths to 70000, keys 0..200 (quick tier: seed-chosen slices), single Transform calls on arbitrary chaining values (white box) - on the harness built from the sources as they are and again with -D_SHA256_UNROLL2 and -D_SHA256_UNROLL; every digest is also compared with Python hashlib/hmac; two further streams pass empty inputs as (nullptr, 0) and preset `count` (white box) to multiples of 64 up to 2^64-64.",
+        "note": "Trusted: Lean kernel + the three standard axioms; the translator tools/gen_sha.py (C parser, macro emitter, function-body emitters; it refuses what it cannot translate faithfully in the macros and in Transform - unsequenced side effects, aliasing macro arguments, non-constant loop bounds; its output is executed by the driver in the correspondence run); the conventions of the body translation (input byte range = list, output pointer = appended bytes, Nat counters for constant-bound for loops, zeros for a callee's uninitialised locals - proved irrelevant for Transform, iteration budget 2^32 for the padding while loop - proved never exhausted).  A body of WriteByteBlock/update/finalize that is outside the translated C subset is NOT an alarm: the function falls back to the hand-written model function for that run (tie = correspondence run only, as for hash/hmac/reset) and coverage.translated_bodies says so; on the unchanged tree all three are translated.  Hand-modelled, validated by the correspondence run only: reset (its constants are translated), hash, hmac, the glue of Model.lean; my transcription of FIPS 180-4 / RFC 2104 in Spec.lean (kernel-evaluated on the NIST 'abc', empty, two-block vectors and RFC 4231 cases 1 and 6, and compared with Python hashlib/hmac through the driver on every run: tests).  The three configurations are generated from a scratch copy of Sha256.cpp in which a source-level #define _SHA256_UNROLL[2] is blanked (the only textual preprocessing not left to g++); the _MSC_VER branch of rotlFixed/rotrFixed is not compiled and not modelled.  Memory abstraction: C arrays are Lean lists; every write goes through a checked `wr` that destroys the array on an out-of-range index, every read is recorded in a ghost flag `ok` that the model carries and the driver reports as FAULT; the theorems hold for all inputs and include ok = true (the harness additionally runs the real code under ASan with the hashers in exactly sized heap blocks).  Copying: the model's objects are values, so copy_midstream holds by construction in the model; that the C++ implicit copy is member-wise is tied by the ops fork/assign/swap.  Hypotheses of the theorems: fewer than 2^61 bytes per digest for the statements against FIPS (= its 2^64-bit limit); streaming_up_to_2_64 covers 2^61..2^64-1 bytes (wrapped length field); from 2^64 bytes on `count` itself wraps - no theorem.  No theorem is partial; there is no OPEN statement.",
         "design_ref": "DESIGN.md 3/C17",
     }
 }
@@ -470,7 +470,7 @@ def nontrivial(h, out):
 
 def check(ctx):
     ctx.assumptions += [
-        "total number of bytes fed to one hasher between resets < 2^61 (hypothesis of the theorems; the generators stay far below)",
+        "total number of bytes fed to one hasher between resets < 2^61 (hypothesis of the theorems against FIPS; < 2^64 for streaming_up_to_2_64; the generators stay far below, the white-box stream presets count up to 2^64-64)",
         "the byte ranges passed to update/hash/hmac are valid for their size (the harness passes exactly sized heap copies under ASan); an empty range may be (nullptr, 0) - exercised by the stream 'sha-null-args'",
         "a freshly constructed hasher's buffer content is indeterminate in C++; the model starts with zeros (never read before written: the harness poisons the storage with 0xAA)",
     ]
